@@ -48,16 +48,17 @@ AccWhy(r) ==
 NlBefore(s, off) == Len(SelectSeq(SubSeq(s, 1, off), LAMBDA c : c = 10))
 RECURSIVE LastNl(_, _)
 LastNl(s, off) == IF off = 0 THEN 0 ELSE IF s[off] = 10 THEN off ELSE LastNl(s, off - 1)      \* 1-based position, 0 if none
-(* generous resource envelope: quadratic time, linear memory *)
-TimeBoundUs(n) == 1000000 + 200 * n + ((n \div 1000) * (n \div 1000)) * 150
-AllocBound(n) == 4194304 + 256 * n
+(* generous resource envelope: quadratic time, linear memory -- in ms / KiB so that everything stays inside TLC's 32-bit integers *)
+Kq(kb) == IF kb > 65536 THEN 2048 ELSE kb \div 32
+TimeBoundMs(kb) == 1000 + kb \div 4 + (Kq(kb) * Kq(kb)) * 150
+AllocBoundKB(kb) == 4096 + 256 * kb
 TotalWhy(r) ==
     IF r.outcome = "harness" THEN ""
     ELSE IF r.outcome = "panic" THEN "ParserPanicked"
     ELSE IF r.outcome = "crash" THEN "ParserCrashedTheProcess"
     ELSE IF r.outcome = "hang" THEN "ParserDidNotTerminate"
-    ELSE IF r.dur_us > TimeBoundUs(r.n) THEN "TimeNotPolynomiallyBounded"
-    ELSE IF r.alloc_bytes > AllocBound(r.n) THEN "MemoryNotBoundedByInput"
+    ELSE IF r.dur_ms > TimeBoundMs(r.n_kb) THEN "TimeNotPolynomiallyBounded"
+    ELSE IF r.alloc_kb > AllocBoundKB(r.n_kb) THEN "MemoryNotBoundedByInput"
     ELSE IF ~r.msgs_valid THEN "ReturnedInvalidMessages"
     ELSE IF r.outcome = "error" /\ r.is_parse_error
          THEN IF r.offset < 0 \/ r.offset > r.n THEN "OffsetOutsideInput"
